@@ -1,5 +1,6 @@
 import ErrModel.Props.C08
 import ErrModel.Props.C13
+import ErrModel.Proofs.Regular
 /-
   C10 — Error() composes predictably; annotations are transparent; nil stays nil.
 
@@ -85,6 +86,38 @@ theorem stripToks_lex_of_markerFree : ∀ (s : Str), markerFree s = true → str
   | case4 => intro _; simp [lex, stripToks]
 
 /-! ### nil stays nil -/
+
+/-! ### the same laws for Error() as the real methods compute it
+
+  `errText` follows the real `Error()` methods: `withPrefix`, `opaqueWrapper` and `joinError`
+  print their cause through the formatting engine (`redact.Sprint(err).StripMarkers()`), the
+  others concatenate.  For a cause over regular ASCII text (`RegE`, Proofs/Regular.lean) the two
+  coincide, so the composition law holds of the engine-computed text as well. -/
+
+/-- every wrapper: Error() is the compositional text over the cause's Error() -/
+theorem C10_engine_composes (id : Ident) (k : WrapKind) (c : Err) (h : RegE c) :
+    errText (.wrap id k c) = wrapText k (errText c) := errText_wrap_reg id k c h
+
+/-- annotation wrappers leave the engine-computed Error() unchanged -/
+theorem C10_engine_annot (id : Ident) (k : WrapKind) (c : Err) (h : RegE c) (hk : k.isAnnot = true) :
+    errText (.wrap id k c) = errText c := by
+  rw [errText_wrap_reg id k c h]
+  cases k <;> simp_all [WrapKind.isAnnot, wrapText]
+
+/-- a message wrapper yields exactly `prefix: cause-text`, the cause text alone for an empty prefix -/
+theorem C10_engine_prefix (id : Ident) (p : RStr) (c : Err) (h : RegE c) :
+    errText (.wrap id (.withPrefix p) c) = if p = [] then errText c else stripMarkers p ++ colonSp ++ errText c := by
+  rw [errText_wrap_reg id _ c h]; simp [wrapText, pfx]
+
+/-- a secondary error does not change Error() -/
+theorem C10_engine_secondary (id : Ident) (c s : Err) : errText (.second id c s) = errText c := by
+  simp [errText]
+
+/-- a barrier prints its own message, whatever it hides -/
+theorem C10_engine_barrier (id : Ident) (m : BarrierMsg) (h h' : Err) :
+    errText (.barrier id m h) = errText (.barrier id m h') := by
+  simp [errText]
+
 
 theorem C10_nil_withMessage (n : Nat) (rs : RStr) : cWithMessage n rs none = none := rfl
 theorem C10_nil_withStack (n : Nat) (st : Stack) : cWithStack n st none = none := rfl
